@@ -539,6 +539,241 @@ func (s *sim) runScript(sc script) {
 	}
 }
 
+// ---- round 3: life-cycle episodes -------------------------------------------------------------------------------
+// The random mix above rarely walks a whole download. The two episode kinds below follow the torrent loop's own
+// discipline through the two phases in which the ordering / duplicate obligations bind hardest:
+//   stream  : an in-order download from (near-)seeds in which pieces come back from the writer with a failed hash check
+//             while the delivering peer has already been asked for its next piece (handlePieceMessage: close downloader,
+//             start writer, startPieceDownloaderFor(pe); handlePieceWriteDone: on error close the peer and
+//             startPieceDownloaders()), peers are replaced, and the re-opened piece has to be requested again;
+//   endgame : the last few missing pieces, a swarm larger than the end-game limit, every peer announcing the same
+//             allowed-fast set (the set is a function of OUR address, so all peers compute the same one), some of the
+//             peers still choking.
+// Nothing here judges: every call is recorded and Trace_Picker.tla decides.
+
+func (s *sim) idlePeers() []int {
+	var out []int
+	for pe := 1; pe <= s.npeers; pe++ {
+		if s.peers[pe] != nil && s.dl[pe] < 0 {
+			out = append(out, pe)
+		}
+	}
+	return out
+}
+
+func (s *sim) busyPeers() []int {
+	var out []int
+	for pe := 1; pe <= s.npeers; pe++ {
+		if s.peers[pe] != nil && s.dl[pe] >= 0 {
+			out = append(out, pe)
+		}
+	}
+	return out
+}
+
+// pickAll is startPieceDownloaders(): web seeds first, then every connected peer in slot order.
+func (s *sim) pickAll() int {
+	n := 0
+	for si := 1; si <= s.nsrc; si++ {
+		if s.step("StartWebseed", 0, 0, si, true) {
+			n++
+		}
+	}
+	for pe := 1; pe <= s.npeers; pe++ {
+		if s.step("Pick", pe, 0, 0, true) {
+			n++
+		}
+	}
+	return n
+}
+
+// join connects a peer into slot pe: bitfield over `pieces` (nil: all; each one missing with probability miss/16), allowed-fast
+// set, unchoke, first request. Only the calls that are not part of the bitfield count against the episode's op budget.
+func (s *sim) join(pe int, pieces []int, miss int, afs []int, unchoke bool) int {
+	if !s.step("Connect", pe, 0, 0, true) {
+		return 0
+	}
+	if pieces == nil {
+		for q := 0; q < s.np; q++ {
+			pieces = append(pieces, q)
+		}
+	}
+	for _, q := range pieces {
+		if s.rng.Intn(16) >= miss {
+			s.step("Have", pe, q, 0, true)
+		}
+	}
+	for _, q := range afs {
+		s.step("AllowedFast", pe, q, 0, true)
+	}
+	if unchoke {
+		s.step("Unchoke", pe, 0, 0, true)
+	}
+	s.step("Pick", pe, 0, 0, true)
+	return 3
+}
+
+// resolveWrite finishes the write in flight the way handlePieceWriteDone does and issues the follow-up requests.
+func (s *sim) resolveWrite(bad bool) int {
+	if s.wrKind == "none" {
+		return 0
+	}
+	n := 1
+	if bad {
+		s.step("WriteBad", 0, 0, 0, true)
+	} else {
+		s.step("WriteOK", 0, 0, 0, true)
+	}
+	return n + s.pickAll()
+}
+
+func (s *sim) runStream(nops int) {
+	defer func() {
+		if r := recover(); r != nil {
+			if _, ok := r.(stopTrace); !ok {
+				panic(r)
+			}
+		}
+	}()
+	s.start()
+	n := 0
+	miss := []int{0, 0, 1, 3}[s.rng.Intn(4)]
+	for pe := 1; pe <= s.npeers; pe++ {
+		if pe > 1 && s.rng.Intn(5) == 0 {
+			continue // free slot: a replacement peer joins later
+		}
+		var afs []int
+		if s.rng.Intn(4) == 0 {
+			afs = []int{s.rng.Intn(s.np)}
+		}
+		n += s.join(pe, nil, miss, afs, s.rng.Intn(8) > 0)
+	}
+	badRate := []int{2, 3, 5}[s.rng.Intn(3)] // one write in badRate fails
+	for tries := 0; n < nops && tries < nops*20; tries++ {
+		switch k := s.rng.Intn(20); {
+		case k < 9: // a peer delivers its piece; it is asked for the next one while the piece is hashed and written
+			if s.wrKind != "none" {
+				n += s.resolveWrite(s.rng.Intn(badRate) == 0)
+				continue
+			}
+			busy := s.busyPeers()
+			if len(busy) == 0 {
+				n += s.pickAll()
+				continue
+			}
+			pe := busy[s.rng.Intn(len(busy))]
+			if !s.step("PieceComplete", pe, 0, 0, true) {
+				continue
+			}
+			n++
+			if s.step("Pick", pe, 0, 0, true) {
+				n++
+			}
+			if s.rng.Intn(3) > 0 { // usually the writer answers before anything else happens
+				n += s.resolveWrite(s.rng.Intn(badRate) == 0)
+			}
+		case k < 12:
+			n += s.resolveWrite(s.rng.Intn(badRate) == 0)
+		case k < 14: // a replacement peer joins a free slot
+			for pe := 1; pe <= s.npeers; pe++ {
+				if s.peers[pe] == nil {
+					n += s.join(pe, nil, miss, nil, s.rng.Intn(8) > 0)
+					break
+				}
+			}
+		case k < 15:
+			if s.step("Disconnect", 1+s.rng.Intn(s.npeers), 0, 0, true) {
+				n++
+				n += s.pickAll()
+			}
+		case k < 16:
+			pe := 1 + s.rng.Intn(s.npeers)
+			op := []string{"Choke", "Unchoke", "Unchoke", "Snub", "CancelDownload"}[s.rng.Intn(5)]
+			if s.step(op, pe, 0, 0, true) {
+				n++
+				if s.step("Pick", pe, 0, 0, true) {
+					n++
+				}
+			}
+		case k < 17 && s.nsrc > 0:
+			op := []string{"StartWebseed", "WebseedPiece", "CloseWebseed"}[s.rng.Intn(3)]
+			if s.step(op, 0, 0, 1+s.rng.Intn(s.nsrc), true) {
+				n++
+			}
+		default:
+			if s.step("Pick", 1+s.rng.Intn(s.npeers), 0, 0, true) {
+				n++
+			}
+		}
+	}
+}
+
+func (s *sim) runEndgame(nops int, hot, afs []int) {
+	defer func() {
+		if r := recover(); r != nil {
+			if _, ok := r.(stopTrace); !ok {
+				panic(r)
+			}
+		}
+	}()
+	s.start()
+	n := 0
+	fast := func() []int { // peers without the fast extension send no allowed-fast set
+		if s.rng.Intn(4) == 0 {
+			return nil
+		}
+		return afs
+	}
+	for pe := 1; pe <= s.npeers; pe++ {
+		n += s.join(pe, hot, []int{0, 0, 2}[s.rng.Intn(3)], fast(), s.rng.Intn(3) > 0)
+	}
+	for tries := 0; n < nops && tries < nops*20; tries++ {
+		pe := 1 + s.rng.Intn(s.npeers)
+		switch k := s.rng.Intn(24); {
+		case k < 9:
+			if s.step("Pick", pe, 0, 0, true) {
+				n++
+			}
+		case k < 11:
+			n += s.pickAll()
+		case k < 14:
+			if s.step("PieceComplete", pe, 0, 0, true) {
+				n++
+				if s.step("Pick", pe, 0, 0, true) {
+					n++
+				}
+			}
+		case k < 17:
+			n += s.resolveWrite(s.rng.Intn(3) == 0)
+		case k < 19:
+			op := []string{"Choke", "Unchoke", "Unchoke", "Snub", "CancelDownload"}[s.rng.Intn(5)]
+			if s.step(op, pe, 0, 0, true) {
+				n++
+				if s.step("Pick", pe, 0, 0, true) {
+					n++
+				}
+			}
+		case k < 20:
+			if s.step("Disconnect", pe, 0, 0, true) {
+				n++
+				n += s.pickAll()
+			}
+		case k < 22:
+			if s.peers[pe] == nil {
+				n += s.join(pe, hot, 0, fast(), s.rng.Intn(3) > 0)
+			}
+		case k < 23:
+			if len(afs) > 0 && s.step("AllowedFast", pe, afs[s.rng.Intn(len(afs))], 0, true) {
+				n++
+			}
+		default:
+			if s.step("Have", pe, hot[s.rng.Intn(len(hot))], 0, true) {
+				n++
+			}
+		}
+	}
+}
+
 func main() {
 	seed := flag.Int64("seed", 1, "")
 	ntraces := flag.Int("n", 100, "number of random traces")
@@ -549,6 +784,8 @@ func main() {
 	outp := flag.String("out", "trace.ndjson", "")
 	nbig := flag.Int("nbig", 0, "number of random traces on torrents with 40..100 pieces and web seeds")
 	nsteal := flag.Int("nsteal", 0, "number of steal episodes (hot pieces under web-seed ranges)")
+	nstream := flag.Int("nstream", 0, "number of stream episodes (in-order download with failed hash checks and peer replacement)")
+	nendgame := flag.Int("nendgame", 0, "number of end-game episodes (few missing pieces, swarm larger than the limit, common allowed-fast set)")
 	flag.Parse()
 	f, err := os.Create(*outp)
 	if err != nil {
@@ -615,6 +852,69 @@ func main() {
 			s.have0 = func(i int) bool { return i < wb || i >= wb+wl }
 		}
 		s.runSteal(*nops)
+		total += s.nevents
+	}
+	for i := 0; i < *nstream; i++ {
+		s := &sim{rng: rng, out: w}
+		s.np = 5 + rng.Intn(*maxPieces*2)
+		s.npeers = 2 + rng.Intn(*maxPeers)
+		s.nsrc = []int{0, 0, 0, 1}[rng.Intn(4)]
+		s.limit = []int{0, 1, 2, 2, 3, 20}[rng.Intn(6)]
+		s.seq = rng.Intn(6) > 0
+		if rng.Intn(3) == 0 { // resumed stream: a prefix (and sometimes a scattered part of the rest) is on disk
+			pre := rng.Intn(s.np)
+			have := make([]bool, s.np)
+			sc := rng.Intn(2) * rng.Intn(6)
+			for j := range have {
+				have[j] = j < pre || rng.Intn(10) < sc
+			}
+			s.have0 = func(i int) bool { return have[i] }
+		}
+		s.runStream(*nops)
+		total += s.nevents
+	}
+	for i := 0; i < *nendgame; i++ {
+		s := &sim{rng: rng, out: w}
+		s.limit = []int{0, 1, 1, 2, 2, 3}[rng.Intn(6)]
+		s.npeers = max(s.limit, 1) + 1 + rng.Intn(3)
+		s.nsrc = []int{0, 0, 0, 1}[rng.Intn(4)]
+		s.seq = rng.Intn(3) == 0
+		nmiss := 1 + rng.Intn(3)
+		var missing []int
+		if rng.Intn(4) == 0 { // tiny torrent, nothing on disk
+			s.np = nmiss
+			for j := 0; j < s.np; j++ {
+				missing = append(missing, j)
+			}
+		} else { // resumed torrent: all but nmiss pieces are on disk
+			s.np = nmiss + 1 + rng.Intn(*maxPieces*2)
+			mset := map[int]bool{}
+			for len(mset) < nmiss {
+				mset[rng.Intn(s.np)] = true
+			}
+			for j := 0; j < s.np; j++ {
+				if mset[j] {
+					missing = append(missing, j)
+				}
+			}
+			s.have0 = func(i int) bool { return !mset[i] }
+		}
+		// the allowed-fast set every peer computes for us: a few pieces, some of them still missing
+		var afs []int
+		for _, m := range missing {
+			if rng.Intn(3) > 0 {
+				afs = append(afs, m)
+			}
+		}
+		for j := rng.Intn(3); j > 0; j-- {
+			afs = append(afs, rng.Intn(s.np))
+		}
+		// bitfields cover the missing pieces, the allowed-fast set and a few pieces that are on disk already
+		hot := append(append([]int(nil), missing...), afs...)
+		for j := rng.Intn(3); j > 0; j-- {
+			hot = append(hot, rng.Intn(s.np))
+		}
+		s.runEndgame(*nops, hot, afs)
 		total += s.nevents
 	}
 	w.Flush()
